@@ -217,6 +217,10 @@ pub trait Dr<C: Col>: Sized {
     fn translate_in_place(&mut self, by: Point);
     /// `pixels()` of styled primitives (bounded), None for other drawables
     fn pixels_vec(&self, budget: usize) -> Option<Vec<Pixel<C>>>;
+    /// number of items `pixels()` yields (at most budget + 1), without allocating
+    fn pixels_count(&self, _budget: usize) -> Option<usize> {
+        None
+    }
     /// the style is completely transparent
     fn transparent(&self) -> bool;
 }
@@ -243,6 +247,9 @@ macro_rules! dr_styled {
             }
             fn pixels_vec(&self, budget: usize) -> Option<Vec<Pixel<C>>> {
                 Some(self.pixels().take(budget).collect())
+            }
+            fn pixels_count(&self, budget: usize) -> Option<usize> {
+                Some(self.pixels().take(budget + 1).count())
             }
             fn transparent(&self) -> bool {
                 self.style.is_transparent()
